@@ -283,7 +283,9 @@ func (e *Endpoint) RecvMsg(m interface{}) error {
 		}
 	}
 	e.c.touch()
-	p.ResetVT()
+	// like the repository's own test connection (and the vtproto gRPC codec) the message is decoded INTO what the caller
+	// passed, without clearing it first: a caller that reuses a packet across calls sees the stale value of every field the
+	// wire omits (proto3 zero values: id 0, type STAT)
 	if err := p.UnmarshalVT(raw); err != nil {
 		return err
 	}
